@@ -363,17 +363,19 @@ theorem Final.emitGroup_eq (hf : Final g A order s) (h : WF g rank) (hA : Assets
     rw [← hid, ← hinstr]
 
 /-- `emit` when its three fallible steps succeed -/
-theorem emit_eq_of (s : CState) (hl : s.leaves ≠ []) (objs : List Obj)
+theorem emit_eq_of (s : CState) (hl : s.leaves ≠ [] ∨ s.parents = []) (objs : List Obj)
     (hobjs : s.leaves.mapM (fun n => match aget n s.index with
       | some o => (pure o : Except CErr Obj) | none => throw CErr.keyError) = .ok objs)
     (syms : List (Option Symbol))
     (hsyms : (groupRuns s.index).mapM (emitGroup s ((objs.filter Obj.isGetter).map (·.id))) = .ok syms) :
     emit s = .ok (syms.filterMap id) := by
   unfold emit
-  have : s.leaves.isEmpty = false := by
-    cases hs : s.leaves with
-    | nil => exact absurd hs hl
-    | cons _ _ => rfl
+  have : (s.leaves.isEmpty && !s.parents.isEmpty) = false := by
+    rcases hl with hl | hl
+    · cases hs : s.leaves with
+      | nil => exact absurd hs hl
+      | cons _ _ => rfl
+    · rw [hl]; simp
   simp only [this, Bool.false_eq_true, if_false]
   erw [hobjs]
   simp only [bind, Except.bind]
@@ -408,11 +410,10 @@ theorem Final.stub_iff (hf : Final g A order s) (h : WF g rank) (ho : OrderOK g 
     refine ⟨getterObj w.uid i, ⟨⟨_, hk, by simp [objOf, hko]⟩, rfl⟩, rfl⟩
 
 /-- **`Table.__iter__` on the final state** -/
-theorem Final.emit_ok (hf : Final g A order s) (h : WF g rank) (hA : AssetsOK g A) (ho : OrderOK g order)
-    (hl : g.linked A = true) :
+theorem Final.emit_ok (hf : Final g A order s) (h : WF g rank) (hA : AssetsOK g A) (ho : OrderOK g order) :
     emit s = .ok ((groupRuns s.index).filterMap
       (fun grp => if (stubsOf s).contains grp.1.id then none else some (symOf g A grp.1))) := by
-  have h1 := emit_eq_of s (hf.leaves_ne_nil h ho hl) (s.leaves.map (objOf s))
+  have h1 := emit_eq_of s (hf.leaves_ok h ho) (s.leaves.map (objOf s))
     (mapM_ok _ (objOf s) _ (by
       intro k hk
       obtain ⟨o, hko⟩ := hf.leaf_registered h ho hk
